@@ -227,6 +227,23 @@ func (eng *Engine) encodeFunc(fn *ssa.Function, ct *Contract) *FuncResult {
 				env.vars[n] = r.vals[i]
 			}
 		}
+		// exit assertions (lemma hints at the return point): proved, then assumed
+		for _, as := range ct.Asserts {
+			if as.Label != "exit" {
+				continue
+			}
+			e2 := *env
+			blk := r.blk
+			st := r.st
+			e2.resolve = func(name string) (Val, bool) { return a.resolveDom(blk, name, st) }
+			t := e2.evalBool(as.Expr)
+			lbl := as.Name
+			if len(a.returns) > 1 {
+				lbl = fmt.Sprintf("%s@ret%d", as.Name, ri+1)
+			}
+			vc.oblige("assert", lbl, r.guard, t, as.Src, a.posOf(fn.Pos()))
+			vc.assume(r.guard, t)
+		}
 		for _, en := range ct.Ensures {
 			lbl := en.Name
 			if len(a.returns) > 1 {
